@@ -355,6 +355,51 @@ def r07_5(ck: Check) -> None:
     ck.expect_count("R07.5", "id supplier sites", suppliers, 4)
 
 
+def r07_8(ck: Check) -> None:
+    """`serialize()` / `deserialize(bytes)` are the generic wrappers of the Serializable base (fresh buffer -> stream codec -> bytes): the
+    stream codecs checked above are what every byte-level entry point runs. A class that overrides a wrapper (a memo of encoded bytes, a
+    shortcut that keeps its input) has a second encoder / decoder the codec rules never see."""
+    base = "skepticoin.serialization.Serializable"
+    n = 0
+    bad = 0
+    for q, ci in sorted(ck.repo.classes.items()):
+        if q == base or not any(a.endswith("Serializable") for a in _ancestors(ck, q)):
+            continue
+        n += 1
+        for nm in ("serialize", "deserialize"):
+            fi = ck.repo.functions.get("%s.%s" % (q, nm))
+            if fi is not None:
+                bad += 1
+                ck.violated("R07.8", "%s uses the generic %s() wrapper" % (short(q), nm),
+                            "the class defines its own %s(): bytes can now be produced / accepted without going through the stream codec "
+                            "(e.g. remembered input bytes returned as the encoding)" % nm, fi.loc)
+    s = ck.summ(base + ".serialize", 0)
+    ok1 = [r for r in s.returns() if r.term[0] == "call" and r.term[1][0] == "a" and r.term[1][2] == "getvalue"]
+    calls = [e for e in s.events if e.kind == "call" and e.parts and e.parts[0] == ("a", ("v", s.fi.params[0]), "stream_serialize")]
+    if len(ok1) == 1 and len(s.returns()) == 1 and len(calls) == 1:
+        ck.ok("R07.8", "Serializable.serialize = stream_serialize into a fresh buffer, its content returned", "", s.fi.loc)
+    else:
+        ck.violated("R07.8", "Serializable.serialize = stream_serialize into a fresh buffer, its content returned",
+                    "returns %s" % [show(r.term)[:80] for r in s.returns()], s.fi.loc)
+    if not bad:
+        ck.ok("R07.8", "no Serializable subclass overrides serialize() / deserialize()", "%d classes" % n, "")
+    ck.expect_count("R07.8", "Serializable subclasses", n, 20)
+
+
+def _ancestors(ck: Check, q: str) -> List[str]:
+    out: List[str] = []
+    todo = [q]
+    while todo:
+        c = ck.repo.classes.get(todo.pop())
+        if c is None:
+            continue
+        for b in c.bases:
+            if isinstance(b, str) and b not in out:
+                out.append(b)
+                todo.append(b)
+    return out
+
+
 def r07_6(ck: Check) -> None:
     """every decoder whose number of reads is data dependent must compare the consumed bytes with the paired encoder's output."""
     ex = extractor(ck)
@@ -480,6 +525,7 @@ def check(ck: Check) -> None:
     ck.run("R07.4", "dispatch tables are bijections", lambda: r07_4(ck))
     ck.run("R07.5", "id provenance", lambda: r07_5(ck))
     ck.run("R07.6", "single accepted encoding of the variable-length integer", lambda: r07_6(ck))
+    ck.run("R07.8", "byte-level entry points are the generic wrappers", lambda: r07_8(ck))
     from .c08 import r08_3, r08_7
     ck.run("R07.5b", "ids handed out by the store reader belong to the content they are attached to", lambda: (r08_3(ck), r08_7(ck, "R07.5")))
     ck.run("R07.7", "__eq__ completeness (notes)", lambda: r07_7(ck))
